@@ -7,3 +7,5 @@ package lisp
 func verifEv(s *CallStack, ev string, a, b int, x, y string) {}
 
 func verifBool(b bool) string { return "" }
+
+func verifPkg(r *Runtime) string { return "" }
